@@ -98,7 +98,8 @@ class Contract:
                     cx.exc = e
                 for (label, cl) in case.post(cx):
                     x.assume(cl)
-                resync_container_views(x, pre)
+                if not getattr(self, "manages_cview", False):
+                    resync_container_views(x, pre)
                 x.event("contract", self.name, case.label)
                 if not eng.feasible(x):
                     continue
@@ -159,6 +160,10 @@ def resync_container_views(post, pre):
         dv = rec.fields.get("_data")
         if rec.tag.startswith(("node", "new:")) and isinstance(dv, Z) and dv.hint in ("dict", "list"):
             post.assume(z3.Select(post.g["CView"], Val.addr(dv.term)) == z3.Select(post.g["View"], z3.IntVal(a)))
+    # [A-TREE] containers registered as belonging to OTHER trees (the contents of other files' buffer entries) keep
+    # their plain view when a callee changes this tree
+    for (cond, t) in pre.ghost.get("other_tree_containers", []):
+        post.assume(z3.Implies(cond, z3.Select(post.g["CView"], t) == z3.Select(pre.g["CView"], t)))
 
 
 def same_value(a, b):
